@@ -16,7 +16,10 @@ NumConst == {LN(i) : i \in 0..2}
 NumCmp   == {CmpE(op, A, c) : op \in CmpOps, c \in NumConst}
 NumIn    == {InE(neg, A, l) : neg \in BOOLEAN, l \in SeqsFromTo(NumConst, 1, 2)}
 NumBtw   == {Between(neg, A, lo, hi) : neg \in BOOLEAN, lo \in NumConst, hi \in NumConst}
-NumAtoms == NumCmp \cup NumIn \cup NumBtw
+\* long literal lists (eight and more members)
+Long(neg, from) == InE(neg, A, [i \in 1..9 |-> LN(from + i - 1)])
+NumLong  == {Long(neg, f) : neg \in BOOLEAN, f \in {0, 1, 2}}
+NumAtoms == NumCmp \cup NumIn \cup NumBtw \cup NumLong
 NumCore  == {CmpE(op, A, LN(1)) : op \in CmpOps} \cup
             {InE(neg, A, <<LN(0), LN(2)>>) : neg \in BOOLEAN} \cup
             {Between(neg, A, LN(1), LN(2)) : neg \in BOOLEAN}
